@@ -8,8 +8,8 @@
            "interrupted":bool,                                              the pass reached STEP_TIMEOUT
            "obs":RUN}
     WF, STEP, T, E as in Driver/WorkflowWire.lean
-    FN   {"c":class,"d":delay,"by":key?,"rf":{"prefix":s,"nameKey":s?,"pre":bool,"readonly":bool,"policy":"patch"|"recreate"|"never"}?}
-    K    "raise-before"|"raise-after"|"404"|"409"|"500"|"hang"
+    FN   {"c":class,"d":delay,"by":key?,"rf":{"prefix":s,"nameKey":s?,"pre":bool,"readonly":bool,"policy":"patch"|"recreate"|"never","deleteIfExists":bool?}?}
+    K    "raise-before"|"raise-after"|"404"|"409"|"500"|"hang"|"no-response"|"400"|"401"|"403"|"429"
     RUN  {"steps":[[label,TAG,[TAG..],SUB]..]}       observed final task states: step task, its forEach iteration tasks
     TAG  "done"|"raised"|"cancelled"
     SUB  null | RUN (the step's Logic is a sub-workflow) | [RUN|null ..] (one per forEach iteration)
@@ -30,6 +30,7 @@ structure RfSpec9 where
   pre : Bool
   readonly : Bool
   policy : Policy
+  deleteIfExists : Bool
 
 structure FnSpec9 where
   cls : String
@@ -49,7 +50,8 @@ def toFnSpec9 (j : J) : Except String FnSpec9 := do
       pure (some { pfx := ← r.getStr "prefix", nameKey := (r.getD "nameKey").str?,
                    pre := ((r.getD "pre").bool?).getD false,
                    readonly := ((r.getD "readonly").bool?).getD false,
-                   policy := toPolicy (((r.getD "policy").str?).getD "patch") : RfSpec9 })
+                   policy := toPolicy (((r.getD "policy").str?).getD "patch"),
+                   deleteIfExists := ((r.getD "deleteIfExists").bool?).getD false : RfSpec9 })
   pure { cls := ← j.getStr "c", delay := ((j.get? "d").bind J.int?).getD 0, byKey := (j.getD "by").str?, rf }
 
 def toKind : String → Except String FaultKind
@@ -59,6 +61,8 @@ def toKind : String → Except String FaultKind
   | "409" => pure .e409
   | "500" => pure .e500
   | "hang" => pure .hang
+  | "no-response" => pure .noResp
+  | "400" | "401" | "403" | "429" => pure .e4xx
   | k => throw s!"bad fault kind {k}"
 
 def toObjState : String → ObjState
@@ -133,7 +137,8 @@ def fnAnswer (ctx : Ctx) (path : Path) (id : String) (inputs : JVal) : FAns :=
         | none => .ans ⟨.permFail, .null, []⟩
         | some name =>
           let st := (ctx.objs.lookup name).getD .absent
-          let cfg : RfCfg := { readonly := rf.readonly, policy := rf.policy, loadDelay := 30,
+          let cfg : RfCfg := { deleteIfExists := rf.deleteIfExists, readonly := rf.readonly, policy := rf.policy,
+                               loadDelay := 30,
                                createDelay := f.delay, updateDelay := f.delay }
           let fault := match ctx.fault with
             | some ft => if pathEq ft.path path then some (ft.call, ft.kind) else none
